@@ -66,6 +66,7 @@ type State struct {
 	curLoop  *ssa.BasicBlock
 	curBlock *ssa.BasicBlock
 	unstable map[string]bool
+	nonnil   map[string]bool
 }
 
 func (s *State) clone() *State {
@@ -90,6 +91,10 @@ func (s *State) clone() *State {
 		curLoop:  s.curLoop,
 		curBlock: s.curBlock,
 		unstable: make(map[string]bool, len(s.unstable)),
+		nonnil:   make(map[string]bool, len(s.nonnil)),
+	}
+	for k := range s.nonnil {
+		n.nonnil[k] = true
 	}
 	for k, v := range s.vals {
 		n.vals[k] = v
@@ -147,6 +152,11 @@ type FE struct {
 	locals         map[string]types.Type
 	addrVars       map[types.Object]bool
 	loopWriteRefs  []string
+	scanning       bool
+	frameWhole     map[string]bool
+	frameLocs      map[string][]string
+	frameReady     bool
+	initializing   bool
 }
 
 type loopInfo struct {
@@ -409,6 +419,9 @@ func (fe *FE) store(st *State, loc *Loc, v Val) {
 		return
 	}
 	fe.loopFrameOb(st, loc.Base, loc.Idx)
+	if len(loc.Idx) > 0 {
+		fe.frameOb(st, loc.Base, loc.Idx[0])
+	}
 	put := func(c comp, t string) {
 		name := loc.Base + c.suffix
 		arr := fe.heapTerm(st, name, arraySort(idxSorts(len(loc.Idx), ""), c.sort))
@@ -529,7 +542,7 @@ func (fe *FE) loopFrameOb(st *State, base string, idx []string) {
 		return
 	}
 	ref := idx[0]
-	if strings.HasPrefix(ref, "(+ cnt") {
+	if isFreshRefTerm(ref) || fe.initializing {
 		return
 	}
 	goal := "(or (= " + ref + " 0) (> " + ref + " cnt!entry)"
@@ -538,4 +551,66 @@ func (fe *FE) loopFrameOb(st *State, base string, idx []string) {
 	}
 	goal += ")"
 	fe.addOb(st, "loop-frame", sanitize(base)+"@"+fe.curPos, nil, goal, "inside a loop only arrays/maps allocated by this activation are written (rows of pre-existing ones are kept across the loop havoc)")
+}
+
+// frameOb: a write to heap array `name` at object `ref` must be allowed by the function's own modifies clause:
+// the whole array is listed, or the object was allocated by this activation, or it is one of the listed objects.
+func stripComp(name string) string {
+	for _, s := range []string{".arr", ".off", ".len", ".cap"} {
+		if strings.HasSuffix(name, s) {
+			return name[:len(name)-len(s)]
+		}
+	}
+	return name
+}
+
+// isFreshRefTerm: syntactically an object allocated by this activation (or a sub-object of one).
+func isFreshRefTerm(ref string) bool {
+	for strings.HasPrefix(ref, "(sub_") {
+		i := strings.Index(ref, " ")
+		if i < 0 {
+			break
+		}
+		ref = strings.TrimSuffix(ref[i+1:], ")")
+	}
+	return strings.HasPrefix(ref, "(+ cnt")
+}
+
+func (fe *FE) frameOb(st *State, name, ref string) {
+	if fe.scanning || fe.initializing || !fe.frameReady || !fe.C.ModSet {
+		return
+	}
+	if strings.HasPrefix(name, "G_held") || strings.HasPrefix(name, "G_wg_") || strings.HasPrefix(name, "G_it") {
+		return
+	}
+	base := name
+	if i := strings.LastIndex(base, "."); i > 0 && (strings.HasSuffix(base, ".arr") || strings.HasSuffix(base, ".off") || strings.HasSuffix(base, ".len") || strings.HasSuffix(base, ".cap")) {
+		base = base[:i]
+	}
+	if fe.frameWhole[name] || fe.frameWhole[base] || fe.frameWhole["*"] {
+		return
+	}
+	if isFreshRefTerm(ref) {
+		return
+	}
+	goal := "(or (> " + ref + " cnt!entry) (= " + ref + " 0)"
+	for _, r := range append(fe.frameLocs[name], fe.frameLocs[base]...) {
+		goal += " (= " + ref + " " + r + ")"
+	}
+	goal += ")"
+	fe.addOb(st, "frame", sanitize(base)+"@"+fe.curPos, nil, goal, "every write is to an object allocated by this activation or to a location named in the function's modifies clause")
+}
+
+func (fe *FE) frameWholeOb(st *State, name, why string) {
+	if fe.scanning || !fe.frameReady || !fe.C.ModSet {
+		return
+	}
+	base := name
+	if i := strings.LastIndex(base, "."); i > 0 && (strings.HasSuffix(base, ".arr") || strings.HasSuffix(base, ".off") || strings.HasSuffix(base, ".len") || strings.HasSuffix(base, ".cap")) {
+		base = base[:i]
+	}
+	if fe.frameWhole[name] || fe.frameWhole[base] || fe.frameWhole["*"] {
+		return
+	}
+	fe.addOb(st, "frame", "whole."+sanitize(base)+"@"+fe.curPos, nil, "false", why+": the callee may modify every "+base+" but the caller's modifies clause does not list it")
 }
